@@ -692,10 +692,7 @@ func Check(r *Run, ex *vs.Exec) []Finding {
 	// C19 at the level of generated code (through the root package's adapter):
 	// every scheduler state report is consistent with itself and with the limit
 	{
-		lim := s.N
-		if lim == 0 {
-			lim = concOf(s.prog)
-		}
+		lim := effLimit(s)
 		jobs := 0
 		withDeps := 0
 		if s.prog.Flow != nil {
@@ -744,13 +741,7 @@ func Check(r *Run, ex *vs.Exec) []Finding {
 		}
 	}
 	// C03: bounded concurrency of user functions
-	limit := s.N
-	if limit == 0 {
-		limit = concOf(s.prog)
-		if limit == 4 && s.GOMAXP > 4 {
-			limit = s.GOMAXP
-		}
-	}
+	limit := effLimit(s)
 	// C03: the goroutines one directive creates are the scheduler loop, the starter of the workers, `limit` workers and one
 	// replacement per worker killed by runtime.Goexit - whatever the number of tasks, elements or reports
 	if limit > 0 {
@@ -785,13 +776,32 @@ func Check(r *Run, ex *vs.Exec) []Finding {
 	return out
 }
 
-func concOf(p *pg.Program) int {
-	c := ""
-	if p.Flow != nil {
-		c = p.Flow.Conc
-	} else {
-		c = p.Par.Conc
+// effLimit is the concurrency limit in force in the scenario (0: unknown).
+// The scenario's N only matters when the directive takes its limit from the harness.
+func effLimit(s *Scenario) int {
+	c := progConc(s.prog)
+	if c == "expr" {
+		return s.N
 	}
+	limit := concOf(s.prog)
+	if c == "" && s.GOMAXP > 4 {
+		limit = s.GOMAXP
+	}
+	return limit
+}
+
+func progConc(p *pg.Program) string {
+	if p.Flow != nil {
+		return p.Flow.Conc
+	}
+	if p.Par != nil {
+		return p.Par.Conc
+	}
+	return ""
+}
+
+func concOf(p *pg.Program) int {
+	c := progConc(p)
 	switch c {
 	case "1":
 		return 1
